@@ -125,6 +125,8 @@ class Ctx:
         self.replay_dir = self.out_root / "replays" / prop
         self.known = [k for k in load_known() if k["property"] == prop]
         self.jobs = int(os.environ.get("VERIF_JOBS", "16"))
+        self.defer = False
+        self._deferred: list = []
         # bookkeeping
         self.obligations: dict[str, dict] = {}  # name -> {ok, detail, kind}
         self.violations: list[dict] = []
@@ -241,6 +243,11 @@ class Ctx:
             return {}
         harness = self.write_harness(harness_name, src)
         results: dict[str, Result] = {}
+        if self.defer:
+            # all batches of a check share one worker pool (run at flush()): no idle cores while one batch waits for its slowest condition.
+            # The dict is filled at flush time; callers that only look results up for evidence samples find them missing, nothing else.
+            self._deferred.append((harness, src, list(conds), results))
+            return results
         with cf.ThreadPoolExecutor(max_workers=self.jobs) as ex:
             futs = {ex.submit(self._run_one, harness, c): c for c in conds}
             for f in cf.as_completed(futs):
@@ -249,6 +256,22 @@ class Ctx:
         for c in conds:
             self._judge(harness, results[c.name], src)
         return results
+
+    def flush(self) -> None:
+        """run every deferred condition in one pool (longest budgets first), then judge batch by batch in registration order"""
+        batches, self._deferred = self._deferred, []
+        if not batches:
+            return
+        jobs = [(h, c, res) for (h, _src, conds, res) in batches for c in conds]
+        jobs.sort(key=lambda j: -j[1].timeout)
+        with cf.ThreadPoolExecutor(max_workers=self.jobs) as ex:
+            futs = {ex.submit(self._run_one, h, c): (c, res) for (h, c, res) in jobs}
+            for f in cf.as_completed(futs):
+                c, res = futs[f]
+                res[c.name] = f.result()
+        for (h, src, conds, res) in batches:
+            for c in conds:
+                self._judge(h, res[c.name], src)
 
     def _judge(self, harness: Path, r: Result, src: str) -> None:
         c = r.cond
@@ -352,6 +375,7 @@ class Ctx:
 
     # ------------------------------------------------------------------ finish
     def finish(self) -> int:
+        self.flush()
         wall = time.time() - self.t0
         verify = {k: v for k, v in self.obligations.items() if v["kind"] == "verify"}
         discharged = sum(1 for v in verify.values() if v["ok"] is True)
